@@ -13,6 +13,7 @@ extern "C" {
 #include "qlibc.h"
 extern uint32_t _q_treetbl_flip_color_cnt, _q_treetbl_rotate_left_cnt, _q_treetbl_rotate_right_cnt;
 }
+#include "common/via_members.hpp"   // after the prototypes: container calls go through the member pointers in half of the cases
 using namespace vf;
 
 const char *vf_harness_name = "tree";
